@@ -48,7 +48,7 @@ EmptyHist(r) ==
    ldrLog |-> [t \in {} |-> <<>>], appliedCmd |-> [i \in {} |-> [op |-> "noop"]],
    lastApplied |-> [n \in NodeIds(r) |-> 0], inc |-> [n \in NodeIds(r) |-> 1],
    rresp |-> [n \in NodeIds(r) |-> {}], acked |-> {}, rejected |-> {}, responded |-> {},
-   notifTerm |-> [n \in NodeIds(r) |-> 0], notif |-> {}, lostByReset |-> {}, hsLoss |-> FALSE]
+   notifTerm |-> [n \in NodeIds(r) |-> 0], notif |-> {}, lostByReset |-> {}, hsLoss |-> FALSE, gapSeen |-> FALSE]
 
 (***************************************************************************)
 (* History update from one record                                           *)
@@ -77,7 +77,9 @@ NewHist(hp, r) ==
       cr == Evs(r, "ClientResp")
       h1 == [hp EXCEPT
         !.granted = @ \cup {[voter |-> vr[j].voter, t |-> vr[j].rt, cand |-> vr[j].cand, inc |-> vr[j].inc] :
-                              j \in {x \in 1..Len(vr) : vr[x].granted}},
+                              j \in {x \in 1..Len(vr) : vr[x].granted}}
+                     \* a node's vote for itself counts once its candidacy has won
+                     \cup {[voter |-> n, t |-> ND(r, n).term, cand |-> n, inc |-> ND(r, n).inc] : n \in Leaders(r)},
         !.led = @ \cup {[n |-> n, t |-> ND(r, n).term] : n \in Leaders(r)}
                   \cup {[n |-> ae[j].leader, t |-> ae[j].t] : j \in 1..Len(ae)},
         !.committed = @ \cup UNION {{[i |-> e.i, e |-> e, ct |-> ND(r, n).term] :
@@ -108,6 +110,7 @@ LostByReset(rp, r) ==
 HsLossNow(hp, rp, r) ==
   \E n \in UpNodes(r) : ~ND(rp, n).up /\ (ND(r, n).term < hp.maxTerm[n])
 CascadeCause(hn) == IF hn.lostByReset # {} THEN "after-prev0-reset"
+                    ELSE IF hn.gapSeen THEN "after-gapped-request"
                     ELSE IF hn.hsLoss THEN "after-hard-state-loss" ELSE "other"
 
 LedFn(hh) == [t \in {x.t : x \in hh.led} |-> {x.n : x \in {y \in hh.led : y.t = t}}]
@@ -144,7 +147,9 @@ Mon_C03(hn, rp, r) ==
 Mon_C04(hn, rp, r) ==
   IF P_LogMatching([n \in NodeIds(r) |-> ND(r, n).log])
      \/ ~P_LogMatching([n \in NodeIds(rp) |-> ND(rp, n).log]) THEN {}
-  ELSE {V("C04", "LogMatching", r, CascadeCause(hn), "")}
+  ELSE {V("C04", "LogMatching", r,
+          IF \E n \in NodeIds(r) : ~Contiguous(ND(r, n).log) THEN "gap-in-log"
+          ELSE IF hn.hsLoss THEN "after-hard-state-loss" ELSE "other", "")}
 
 Mon_C05(hp, hn, rp, r) ==
   \* leader completeness
@@ -185,7 +190,8 @@ ApplyOrderBad(evs, j, last, incs) ==   \* evs: Applied events of this record in 
           \cup ApplyOrderBad(evs, j + 1, [last EXCEPT ![e.n] = e.idx], [incs EXCEPT ![e.n] = e.inc])
 Mon_C06(hp, hn, rp, r) ==
   LET evs == Evs(r, "Applied")
-  IN {V("C06", "ApplyOrder", r, "other", ToString(x)) : x \in ApplyOrderBad(evs, 1, hp.lastApplied, hp.inc)}
+  IN {V("C06", "ApplyOrder", r, IF ~Contiguous(ND(r, x[1]).log) THEN "gap-in-log" ELSE "other", ToString(x)) :
+         x \in ApplyOrderBad(evs, 1, hp.lastApplied, hp.inc)}
      \cup {V("C06", "ApplyAgreement", r, CascadeCause(hn), ToString(evs[j].idx)) :
              j \in {x \in 1..Len(evs) : evs[x].idx \in DOMAIN hp.appliedCmd /\ hp.appliedCmd[evs[x].idx] # evs[x].c}}
      \cup {V("C06", "StateIsFold", r, CascadeCause(hn), ToString(n)) :
@@ -239,7 +245,8 @@ Mon_C09(hn, rp, r) ==
          lost == {v \in vs : [n |-> v, e |-> e] \in hn.lostByReset}
      IN IF e.i # 0 /\ e.t = ND(r, n).term
            /\ IsMajority(Cardinality({v \in vs : Holds(r, v, e)} \cup lost) + 1, Cardinality(vs) + 1)
-        THEN "holder-lost-entry-by-prev0-reset" ELSE "other",
+        THEN "holder-lost-entry-by-prev0-reset"
+        ELSE IF hn.gapSeen THEN "after-gapped-request" ELSE "other",
      ToString(<<n, ND(r, n).commit>>)) :
      n \in {x \in Leaders(r) : ND(rp, x).up /\ ND(rp, x).inc = ND(r, x).inc
               /\ ND(r, x).commit > ND(rp, x).commit /\
@@ -398,7 +405,8 @@ Next ==
                  hp3 == [hp2 EXCEPT !.rejected = @ \cup {cr[j].kind \o ":" \o cr[j].key \o ":" \o cr[j].val :
                                                          j \in {x \in 1..Len(cr) : RejClass(cr[x])}}]
                  hn  == [NewHist(hp3, r) EXCEPT !.lostByReset = @ \cup LostByReset(rp, r),
-                                                !.hsLoss = @ \/ HsLossNow(h, rp, r)]
+                                                !.hsLoss = @ \/ HsLossNow(h, rp, r),
+                                                !.gapSeen = @ \/ \E n \in NodeIds(r) : ~Contiguous(ND(r, n).log)]
                  ln  == SelectSeq(Evs(r, "LeaderNotify"), LAMBDA e : e.leader # 0)
                  hn2 == [hn EXCEPT !.notif = @ \cup {[leader |-> ln[j].leader, t |-> ln[j].t] : j \in 1..Len(ln)},
                                    !.notifTerm = [n \in DOMAIN @ |->
